@@ -1,7 +1,12 @@
 #!/usr/bin/env python3
-"""Prints the markdown tables of DESIGN.md §10.4 (fixes/findings) and §10.6 (seeded mutations)
-from known_findings.json and seeded/*/meta.json."""
-import glob, json, os, re, subprocess
+"""Rewrites the markdown tables of DESIGN.md §10.4 (fixes/findings) and §10.6 (seeded mutations)
+in place from known_findings.json and seeded/*/meta.json (each table = the block of lines starting
+with its header row up to the next blank line). `--print` only prints them."""
+import glob, json, os, re, subprocess, sys, io
+_out = io.StringIO()
+_print = print
+def print(*a):
+    _print(*a, file=_out)
 root = os.path.dirname(os.path.dirname(os.path.abspath(__file__)))
 def esc(x): return str(x).replace("|", "\\|").replace("\n", " ")
 k = json.load(open(os.path.join(root, "known_findings.json")))
@@ -22,3 +27,23 @@ for p in sorted(glob.glob(os.path.join(root, "seeded", "*", "meta.json"))):
     sid = os.path.basename(os.path.dirname(p))
     need = esc(d.get("needs_to_manifest", ""))[:260]
     print(f"| {sid} | {d.get('property')} | {need} | {', '.join(c.get('caught_by', [])) or '**missed**'} | {esc(c.get('notes',''))[:400]} |")
+
+txt = _out.getvalue()
+if "--print" in sys.argv:
+    _print(txt)
+else:
+    tables = [t for t in txt.split("\n\n") if t.strip()]
+    dp = os.path.join(root, "DESIGN.md")
+    d = open(dp).read().split("\n")
+    for t in tables:
+        head = t.split("\n")[0]
+        try:
+            i = d.index(head)
+        except ValueError:
+            _print("header not found in DESIGN.md:", head); continue
+        j = i
+        while j < len(d) and d[j].strip() != "":
+            j += 1
+        d[i:j] = t.rstrip("\n").split("\n")
+    open(dp, "w").write("\n".join(d))
+    _print("DESIGN.md tables rewritten:", len(tables))
